@@ -200,12 +200,14 @@ func histChild(args []string) {
 // ---------------------------------------------------------------- Inverse on the C15 shapes
 
 type rtEvent struct {
-	Ev   string `json:"ev"`
-	API  string `json:"api"`
-	Ok   bool   `json:"ok"`
-	M    string `json:"m"`
-	Res  tvNode `json:"res"`
-	Orig tvNode `json:"orig"`
+	Ev     string `json:"ev"`
+	API    string `json:"api"`
+	Ok     bool   `json:"ok"`
+	M      string `json:"m"`
+	Res    tvNode `json:"res"`
+	Orig   tvNode `json:"orig"`
+	Alias  bool   `json:"alias"`  // two positions of the result share a pointer target, map or slice backing array
+	OAlias bool   `json:"oalias"` // ... of the original
 }
 
 // registered: the types an interface-typed field may hold must be known to the recomposer (that is what the create key is for)
@@ -217,25 +219,138 @@ func rtRecomposer() *alt.Recomposer {
 	return r
 }
 
-func rtOne(api string, rv reflect.Value) (ev rtEvent) {
-	ev = rtEvent{Ev: "rt", API: api, Orig: project(rv), Res: tvNode{"g": "other"}}
+// aliased reports whether two different positions inside the value share storage: the same pointer target, the same map,
+// or the same slice backing array. Writing through one of them would be observable through the other; pointer identity
+// is a fact only the Go side can supply.
+func aliased(rv reflect.Value) bool {
+	seen := map[[2]uintptr]bool{}
+	var walk func(v reflect.Value) bool
+	mark := func(kind uintptr, p uintptr) bool {
+		k := [2]uintptr{kind, p}
+		if seen[k] {
+			return true
+		}
+		seen[k] = true
+		return false
+	}
+	walk = func(v reflect.Value) bool {
+		switch v.Kind() {
+		case reflect.Ptr:
+			if v.IsNil() {
+				return false
+			}
+			return mark(1, v.Pointer()) || walk(v.Elem())
+		case reflect.Interface:
+			if v.IsNil() {
+				return false
+			}
+			return walk(v.Elem())
+		case reflect.Map:
+			if v.IsNil() {
+				return false
+			}
+			if mark(2, v.Pointer()) {
+				return true
+			}
+			it := v.MapRange()
+			for it.Next() {
+				if walk(it.Value()) {
+					return true
+				}
+			}
+		case reflect.Slice:
+			if v.IsNil() || v.Len() == 0 {
+				return false
+			}
+			if mark(3, v.Pointer()) {
+				return true
+			}
+			fallthrough
+		case reflect.Array:
+			for i := 0; i < v.Len(); i++ {
+				if walk(v.Index(i)) {
+					return true
+				}
+			}
+		case reflect.Struct:
+			if v.Type() == timeT {
+				return false
+			}
+			for i := 0; i < v.NumField(); i++ {
+				if v.Type().Field(i).PkgPath == "" && walk(v.Field(i)) {
+					return true
+				}
+			}
+		}
+		return false
+	}
+	return walk(rv)
+}
+
+// rtOptions: the three key naming modes
+func rtOptions(mode string) *ojg.Options {
+	o := decOpts()
+	switch mode {
+	case "exact":
+		o.KeyExact = true
+	case "tags":
+		o.UseTags = true
+	}
+	return o
+}
+
+type rtAPI struct {
+	name  string
+	route string // dec | oj | sen
+	mode  string // low | exact | tags
+	ptr   bool   // the encoder gets a pointer (addressable value: offset based field plans)
+}
+
+// The three original routes keep their names (lower-case keys, value passed); the others add key naming modes and
+// addressable sources.
+var rtAPIs = []rtAPI{
+	{"alt.Decompose->Recompose", "dec", "low", false},
+	{"oj.Marshal->Unmarshal", "oj", "low", false},
+	{"sen.String->Unmarshal", "sen", "low", false},
+	{"alt.Decompose(ptr)->Recompose", "dec", "low", true},
+	{"oj.Marshal(ptr)->Unmarshal", "oj", "low", true},
+	{"sen.String(ptr)->Unmarshal", "sen", "low", true},
+	{"alt.Decompose/exact->Recompose", "dec", "exact", false},
+	{"oj.Marshal/exact->Unmarshal", "oj", "exact", false},
+	{"alt.Decompose(ptr)/exact->Recompose", "dec", "exact", true},
+	{"oj.Marshal(ptr)/exact->Unmarshal", "oj", "exact", true},
+	{"sen.String(ptr)/exact->Unmarshal", "sen", "exact", true},
+	{"alt.Decompose/tags->Recompose", "dec", "tags", false},
+	{"oj.Marshal/tags->Unmarshal", "oj", "tags", false},
+	{"alt.Decompose(ptr)/tags->Recompose", "dec", "tags", true},
+	{"oj.Marshal(ptr)/tags->Unmarshal", "oj", "tags", true},
+	{"sen.String(ptr)/tags->Unmarshal", "sen", "tags", true},
+}
+
+func rtOne(api rtAPI, rv reflect.Value) (ev rtEvent) {
+	ev = rtEvent{Ev: "rt", API: api.name, Orig: project(rv), Res: tvNode{"g": "other"}, OAlias: aliased(rv)}
 	defer func() {
 		if r := recover(); r != nil {
 			ev.Ok, ev.M = false, trunc(fmt.Sprintf("panic: %v", r))
 		}
 	}()
 	ptr := reflect.New(rv.Type())
+	src := rv.Interface()
+	if api.ptr {
+		src = rv.Addr().Interface()
+	}
+	opt := rtOptions(api.mode)
 	var err error
-	switch api {
-	case "alt.Decompose->Recompose":
-		_, err = rtRecomposer().Recompose(alt.Decompose(rv.Interface(), decOpts()), ptr.Interface())
-	case "oj.Marshal->Unmarshal":
+	switch api.route {
+	case "dec":
+		_, err = rtRecomposer().Recompose(alt.Decompose(src, opt), ptr.Interface())
+	case "oj":
 		var b []byte
-		if b, err = oj.Marshal(rv.Interface(), decOpts()); err == nil {
+		if b, err = oj.Marshal(src, opt); err == nil {
 			err = oj.Unmarshal(b, ptr.Interface(), rtRecomposer())
 		}
-	case "sen.String->Unmarshal":
-		err = sen.Unmarshal([]byte(sen.String(rv.Interface(), decOpts())), ptr.Interface(), rtRecomposer())
+	case "sen":
+		err = sen.Unmarshal([]byte(sen.String(src, opt)), ptr.Interface(), rtRecomposer())
 	}
 	if err != nil {
 		ev.M = trunc(err.Error())
@@ -243,6 +358,7 @@ func rtOne(api string, rv reflect.Value) (ev rtEvent) {
 	}
 	ev.Ok = true
 	ev.Res = project(ptr.Elem())
+	ev.Alias = aliased(ptr.Elem())
 	return
 }
 
@@ -251,20 +367,29 @@ func rtCases(args []string) {
 	casesOut := fs.String("cases", "", "write one case per trace line here")
 	fs.Parse(args)
 	lines := readLines(os.Stdin)
-	apis := []string{"alt.Decompose->Recompose", "oj.Marshal->Unmarshal", "sen.String->Unmarshal"}
 	out := parallelMap(len(lines), func(i int) [][]byte {
 		var c caseSpec
 		if err := json.Unmarshal(lines[i], &c); err != nil {
 			panic(err)
 		}
-		rv, err := buildValue(&c)
-		if err != nil {
-			fmt.Fprintln(os.Stderr, "encode:", err)
-			os.Exit(2)
+		// Go map iteration order is random and the recomposer walks decomposed maps: shapes with map members are
+		// recomposed several times (every repetition is an event of its own, judged like any other).
+		reps := 1
+		for _, f := range c.F {
+			if len(f.K) > 3 && f.K[:4] == "map[" {
+				reps = 6
+			}
 		}
 		var res [][]byte
-		for _, api := range apis {
-			res = append(res, mustJSON(rtOne(api, rv)), mustJSON(map[string]any{"f": c.F, "top": c.Top, "v": c.V, "api": api}))
+		for _, api := range rtAPIs {
+			for k := 0; k < reps; k++ {
+				rv, err := buildValue(&c) // fresh value per run: nothing is shared between runs
+				if err != nil {
+					fmt.Fprintln(os.Stderr, "encode:", err)
+					os.Exit(2)
+				}
+				res = append(res, mustJSON(rtOne(api, rv)), mustJSON(map[string]any{"f": c.F, "top": c.Top, "v": c.V, "api": api.name}))
+			}
 		}
 		return res
 	})
